@@ -5213,6 +5213,26 @@ class Arc(Curve):
                 self.pry *= other
             if other.determinant < 0:
                 self.sweep = -self.sweep
+            if self.center is not None and self.prx is not None and self.pry is not None:
+                # prx and pry are conjugate radius points after an affine map. They are only the
+                # principal axes (what rx, ry and rotation are read from) if they are orthogonal.
+                ux = self.prx.x - self.center.x
+                uy = self.prx.y - self.center.y
+                vx = self.pry.x - self.center.x
+                vy = self.pry.y - self.center.y
+                uu = ux * ux + uy * uy
+                vv = vx * vx + vy * vy
+                d = ux * vx + uy * vy
+                if abs(d) > 1e-12 * (uu + vv):
+                    t0 = atan2(2.0 * d, uu - vv) / 2.0
+                    c0 = cos(t0)
+                    s0 = sin(t0)
+                    self.prx = Point(
+                        self.center.x + ux * c0 + vx * s0, self.center.y + uy * c0 + vy * s0
+                    )
+                    self.pry = Point(
+                        self.center.x - ux * s0 + vx * c0, self.center.y - uy * s0 + vy * c0
+                    )
         return self
 
     def __len__(self):
